@@ -15,6 +15,36 @@ def check(pid, technique, text, note, ref):
     CHECKS[pid] = (technique, text, note, ref)
 
 
+CH_NOTE = ("Trusts TLC, harness/chainio.py (abstract names are concretised so that Python's sort order realises the abstract "
+           "rank; bfs are pairwise distinct prime-reciprocal Fractions; metadata tokens map to distinguishable JSON-like "
+           "dictionaries) and harness/descriptor.py (backtracking reader, all parses enumerated).")
+check("C11",
+      "TLA+ model of the class / dictionary forms (spec/Chain.tla: ToDict, FromDict) with TLC-checked round trip on every chain "
+      "of the bounded universe; real conversions recorded and validated by TLC (spec/ChainTrace.tla)",
+      "TLC checks FromDict(ToDict(c)) = c on every chain of the Flatten universe. Real DecayChain objects built from those chains "
+      "and from random ones (repeated decaying particles, multiplicity 4, JSON-like metadata) are converted to_dict -> from_dict "
+      "-> to_dict and TLC judges the dictionary against ToDict (per-position unfolding, canonical order) and the rebuilt chain "
+      "against the original; random dictionaries with several modes / conflicting repeats must be rejected exactly when FromDict "
+      "rejects; final states built from string, list, tuple, mapping and PDG ids in shuffled orders must be the same bag in one "
+      "canonical order; every EvtGen id; parser-produced single-line chains round trip up to daughter order.",
+      CH_NOTE, "DESIGN.md section 5, C11")
+check("C12",
+      "PlusCal algorithm with the loop structure of DecayChain.flatten (spec/Flatten.tla) model-checked with TLC over every "
+      "chain x stable set x key order of the bounded universe, with termination; real flatten() results validated by TLC",
+      "TLC checks termination, fs = Leaves(c,S), used = DecaysUsed(c,S) and a conservation invariant at every step for every "
+      "chain (<= 3-4 decaying particles, bags <= 2-3), every stable set and every order of the sub-decay mapping. Each run of that "
+      "universe and random chains with up to 15 decaying particles are replayed on real chains whose bfs are distinct "
+      "prime-reciprocal Fractions, so the bag of decays used is recovered exactly by factorising the returned bf; TLC judges "
+      "leaves, used bag, no sub-decays left, metadata kept, original unchanged, order independence, float agreement, visible_bf.",
+      CH_NOTE, "DESIGN.md section 5, C12")
+check("C13",
+      "TLA+ tree of a chain (spec/Chain.tla TreeOf / CanonTree); real to_string() under 6 pattern pairs read back by bracket "
+      "matching and validated as unordered trees by TLC (spec/ChainTrace.tla)",
+      "Every chain of the Flatten universe and random chains with repeated decaying daughters are built with names from real "
+      "spellings (parentheses, quotes, signs), rendered under 6 (top, sub) pattern pairs in shuffled input orders; the harness "
+      "enumerates all parses of each string (exactly one demanded) and TLC judges the read-back tree, as an unordered tree, "
+      "against TreeOf(c); all input orders must give the identical string.",
+      CH_NOTE, "DESIGN.md section 5, C13")
 check("C14",
       "TLA+ stack machine (spec/Descriptor.tla) model-checked with TLC; TLC-generated behaviours replayed into real with-blocks",
       "TLC checks RestoresEntry / InvalidInert exhaustively on the abstract state graph (2 context objects, 3 valid + 2 invalid "
